@@ -4,10 +4,24 @@ import json, subprocess
 
 hook_commits = ["f1ad3b2"]
 
+RIG_NOTE = "Trusts the rig (pty, gate on core.Stdin through the verif hook, lock-step driver, VT100 emulator where used) and the kernel tty layer."
+
 claimed = {
  "C02": dict(level="exploration", technique="property-based testing (rapid): generated Unicode strings x chunkings x meta settings through a real pty session; identity oracle",
    text="Generated-input search: thousands of generated printable Unicode strings are typed byte-for-byte into a real Readline call on a pseudo-terminal under generated read chunkings and meta settings; the returned line must equal the typed text. Exploration is the right level: the domain (all strings x chunkings x settings) is unbounded and the oracle is exact (identity).",
-   note="Trusts the rig (pty, gate on core.Stdin, lock-step driver) and the kernel tty layer in raw mode; preconditions from the documentation (autopairs/autocomplete/autosuggest off, no user binds).", ref="DESIGN.md §3 C02"),
+   note=RIG_NOTE + " Preconditions from the documentation (autopairs/autocomplete/autosuggest off, no user binds).", ref="DESIGN.md §3 C02"),
+ "C10": dict(level="fault_enumeration", technique="property-based testing (rapid) of generated histories + exhaustive enumeration of every truncation offset of the last append (crash points); list-model oracle; native fuzzing of file contents in the thorough tier",
+   text="For each generated history every byte offset of the last record is used as a crash point (exhaustively for records up to 600 bytes, first/last 96 bytes plus spread offsets beyond): reopen must succeed, keep the completed entries in order, and a later append must be durable. The histories themselves are sampled, the crash points per history are enumerated: fault enumeration.",
+   note="Models a process death as a prefix of the single O_APPEND write; no claims about kernel or disk failure. API-only (NewHistoryFromFile, Write, Len, GetLine).", ref="DESIGN.md §3 C10"),
+ "C12": dict(level="exploration", technique="property-based testing (rapid): grammar-derived inputrc texts with generated mutations, raw bytes and include graphs, parsed in a child process under a watchdog; native fuzzing (go test -fuzz) in the thorough tier",
+   text="Generated-input search for crashes, stack overflows and non-termination of the inputrc parser over mutated grammar-derived programs, raw bytes, option combinations and include graphs with cycles; the call must return nil or an error. Exploration: the input space is unbounded and the oracle is a totality predicate.",
+   note="Parse runs in the child process (stack overflow is fatal, loops need a watchdog); inputs bounded to ~1 MiB so a 10 s limit is not honest slowness.", ref="DESIGN.md §3 C12"),
+ "C13": dict(level="exploration", technique="property-based testing (rapid): grammar-generated well-formed inputrc programs vs an independent reference evaluator (differential); rapid.MakeFuzz under go test -fuzz in the thorough tier",
+   text="Well-formed programs from a grammar are evaluated both by the parser and by a small independent reference evaluator of the same AST; Binds and Vars must agree in both directions (nothing missing, nothing extra). Exploration with a complete oracle for the generated fragment of the language.",
+   note="Only the documented notation is generated; sequences compared modulo Meta-x == ESC x. One known finding (nested $if leak) is recognised by its exact mechanism and reported as KNOWN-FINDING.", ref="DESIGN.md §3 C13"),
+ "C19": dict(level="exploration", technique="property-based testing (rapid) + bounded-exhaustive enumeration: Unescape(Escape(s)) round trip over all single runes 0x00-0xFF, all default bindings, significant triples and random sequences; native fuzzing in the thorough tier",
+   text="Round-trip oracle Unescape(Escape(s)) == s and Unescape(EscapeMacro(s)) == s, exhaustive for length 1 over 0x00-0xFF, for every sequence bound in a default shell and for triples of notation-significant runes, random beyond; plus agreement of Unescape with an independent decoder of the documented notation.",
+   note="Codec part of the property (pure API). The dump-commands part is checked through the terminal rig once registered (see DESIGN.md).", ref="DESIGN.md §3 C19"),
 }
 
 not_applicable_reason = "check not yet registered in this commit (framework under construction; see DESIGN.md §3 for the planned check)"
